@@ -19,24 +19,22 @@ namespace HeartwoodModel.Fetch
 
 /-- **A fetch never moves a `rad/sigrefs` reference backwards or sideways** — of any namespace, for every
 input and every outcome (success, failure, error with partial application). -/
-theorem sigrefs_monotone (env : Env) (hw : EnvWf env) (cfg : Config) (L A : Refdb)
-    (hA : cfg.refsAt = none → AdvSorted A) (k : Key) (c : Oid) (hc : L.get (k, env.nSig) = some c) :
+theorem sigrefs_monotone (env : Env) (hw : EnvWf env) (cfg : Config) (L A : Refdb) (k : Key) (c : Oid) (hc : L.get (k, env.nSig) = some c) :
     ∃ c', (fetch env cfg L A).2.get (k, env.nSig) = some c' ∧ (c' = c ∨ env.anc c c' = some .ahead) := by
   rcases fetch_cases env cfg L A with ⟨h, _⟩ | ⟨anchor, stage, sr, l, _, hs, hsr, hl, _, hpost, _⟩
   · exact ⟨c, by rw [h]; exact hc, Or.inl rfl⟩
   · rw [hpost]
-    have hsp := specialStage_wf env cfg _ _ _ A hA hs
     obtain ⟨hsorted, hfacts⟩ := loop_remotes_spec hsr hl
-    exact sigrefs_monotone_aux env hw hsp l.remotes hsorted hfacts k c hc
+    exact sigrefs_monotone_aux env hw l.remotes hsorted hfacts k c hc
 
 /-- **C02, first sentence**: for every delegate of the identity document that anchors the fetch (blocked or
 not, local or not) with a stored signed-refs commit `c`, the commit stored after the fetch is `c` or a commit
 `Ahead` of `c`. -/
 theorem delegate_sigrefs_monotone (env : Env) (hw : EnvWf env) (cfg : Config) (L A : Refdb)
-    (hA : cfg.refsAt = none → AdvSorted A) (anchor : Doc) (_ha : anchorOf cfg = some anchor)
+    (anchor : Doc) (_ha : anchorOf cfg = some anchor)
     (d : Key) (_hd : d ∈ anchor.delegates) (c : Oid) (hc : L.get (d, env.nSig) = some c) :
     ∃ c', (fetch env cfg L A).2.get (d, env.nSig) = some c' ∧ (c' = c ∨ env.anc c c' = some .ahead) :=
-  sigrefs_monotone env hw cfg L A hA d c hc
+  sigrefs_monotone env hw cfg L A d c hc
 
 /-- The special references offered by the fetch (advertised `rad/id` / `rad/sigrefs` that pass the scope and
 block-list filters, or the announced `refs_at`). -/
@@ -134,10 +132,10 @@ end Witness2
 open Witness2 in
 /-- Monotonicity is exercised: the server offers delegate 0's OLDER commit 20 (behind the stored 21): the
 fetch succeeds, and `rad/sigrefs` of delegate 0 stays at 21. -/
-example : EnvWf env ∧ AdvSorted [((0, 1), 20), ((1, 1), 120)] ∧
+example : EnvWf env ∧
     L.get (0, env.nSig) = some 21 ∧
     fetch env (cfg false) L [((0, 1), 20), ((1, 1), 120)] = (.success [1], L) := by
-  refine ⟨envWf, by unfold AdvSorted refLt; simp, by decide, rfl⟩
+  refine ⟨envWf, by decide, rfl⟩
 
 open Witness2 in
 /-- The hypothesis of `below_threshold_fails_unchanged` is satisfiable: a clone (nothing stored) in which
